@@ -585,7 +585,7 @@ int flatcc_verify_struct_as_nested_root(flatcc_table_verifier_descriptor_t *td,
     const uoffset_t *buf;
     uoffset_t bufsiz;
 
-    check_result(flatcc_verify_vector_field(td, id, required, align, 1, FLATBUFFERS_COUNT_MAX(1)));
+    check_result(flatcc_verify_vector_field(td, id, required, 1, align, FLATBUFFERS_COUNT_MAX(1)));
     if (0 == (buf = get_field_ptr(td, id))) {
         return flatcc_verify_ok;
     }
@@ -602,7 +602,7 @@ int flatcc_verify_table_as_nested_root(flatcc_table_verifier_descriptor_t *td,
     const uoffset_t *buf;
     uoffset_t bufsiz;
 
-    check_result(flatcc_verify_vector_field(td, id, required, align, 1, FLATBUFFERS_COUNT_MAX(1)));
+    check_result(flatcc_verify_vector_field(td, id, required, 1, align, FLATBUFFERS_COUNT_MAX(1)));
     if (0 == (buf = get_field_ptr(td, id))) {
         return flatcc_verify_ok;
     }
